@@ -275,7 +275,7 @@ void run(size_t idx) {
 
 MonReg reg({"C20", "exploration",
 			"seeded random finite, well-conditioned inputs: transforms with rotation of any angle, scale log-uniform in [0.01,100], translations up to 1, 100 and 1e5; rotation vectors "
-			"in [0, pi-0.05] (plus zero, tiny, near-limit and >pi angles for orthonormality); 3x3 matrices with singular values in [0.2,5] and both orientations, singular matrices; point "
+			"in [0, pi-0.05] (plus zero, tiny, near-limit and >pi angles, and a band of +-1.5e-3 around the half turn with a condition-scaled tolerance); 3x3 matrices with singular values in [0.2,5] times a uniform factor in [0.02,50] and both orientations, singular matrices; point "
 			"sets: single, pair, collinear, coplanar, identical, duplicated, up to 5000 points, coordinates up to 1e4; API-built shapes of every geometry class as built and reloaded. "
 			"Oracle: algebraic identities with explicit magnitude-scaled float tolerances (composition, inverse, ToMatrix, rotvec<->matrix inverse and orthonormal, M*M^-1=I, averages of n "
 			"identical transforms, sphere contains all points and radius <= half bounding-box diagonal, UpdateBounds contains all vertices). Non-trivial = every evaluated random instance.",
